@@ -190,12 +190,18 @@ def gen_content(rng):
             body = rng.choice([lit + b' Tj', b'[' + lit + b' -120 ' + lit + b'] TJ', lit + b" '", b'1 2 ' + lit + b' "', b'0 -14 Td ' + lit + b' Tj', b'T* ' + lit + b' Tj'])
             ops.append(b'BT /F1 12 Tf ' + body + b' ET')
         elif k < 0.8:
-            ops.append(rng.choice([b'0 0 m 10 10 l S', b'0 0 10 10 re W n', b'q 1 0 0 1 5 5 cm Q', b'1 0 0 RG 0.5 g', b'BX foo bar EX', b'/Im1 Do']))
+            ops.append(rng.choice([b'0 0 m 10 10 l S', b'0 0 10 10 re W n', b'q 1 0 0 1 5 5 cm Q', b'1 0 0 RG 0.5 g', b'BX foo bar EX', b'/Im1 Do',
+                                   b'BI /W 1 /H 1 /BPC 8 /CS /G ID \x00 EI', b'BI /W 2 /H 1 ID ab EI', b'0 0 10 10 re W* n']))
         elif k < 0.9:
             ops.append(rng.choice([b'BT BT ET', b'ET', b'(x) Tj', b'0 0 m BT ET', b'foo', b'BT 1 Tj ET', b'BT (a) (b) Tj ET']))   # illegal
         else:
             ops.append(b'% comment\n')
-    return rng.choice([b' ', b'\n']).join(ops) + rng.choice([b'', b'\n', b' '])
+    body = rng.choice([b' ', b'\n']).join(ops)
+    if rng.random() < 0.08:
+        # content that stops in the middle of a construct (inline image data, an operand without operator, …)
+        body += b' ' + rng.choice([b'BI ID', b'BI /W 1 /H 1 ID', b'BI /W 1 /H 1 ID ', b'BI', b'BT (a', b'BT [(a) 1', b'12', b'/Name', b'BX', b'BI /W 1 ID x EI BI ID'])
+        return body
+    return body + rng.choice([b'', b'\n', b' '])
 
 
 def gen_doc(rng):
@@ -305,7 +311,7 @@ def render_simple(rng, objs, root, mut=None):
         out += b'\nendobj\n'
     xo = len(out)
     size = max(nums) + 1
-    out += b'xref\n0 %d\n' % size
+    out += b'xref\n0 %d\n' % (size + mut.get('count_delta', 0))
     for n in range(size):
         if n in offs:
             o = offs[n]
@@ -588,6 +594,8 @@ def cases(tier, rng):
             except RecursionError:
                 pass
         # loader-level mutations
+        for cd in (1, 2, 45, -1, -2):
+            out.append('B ' + render_simple(random.Random(seed), objs, root, {'count_delta': cd}).hex())
         for key in ('startxref', 'size', 'prev'):
             v = rng.choice(EXTREMES + [len(base) - 1, len(base), len(base) + 1])
             if v >= 0 or key != 'startxref':
